@@ -1307,7 +1307,8 @@ impl TCompactInputProtocol<&mut Bytes> {
         } else {
             self.read_varint::<u32>()? as i32
         };
-        Ok((element_type, element_count as usize))
+        let element_count = super::check_container_size(element_count, self.trans.len())?;
+        Ok((element_type, element_count))
     }
 }
 
@@ -1753,6 +1754,7 @@ impl TInputProtocol for TCompactInputProtocol<&mut Bytes> {
         if element_count == 0 {
             Ok(TMapIdentifier::new(TType::Stop, TType::Stop, 0))
         } else {
+            let element_count = super::check_container_size(element_count, self.trans.len())?;
             let type_header = self.read_byte()?;
             let key_type = tcompact_get_ttype(((type_header & 0xF0) >> 4).try_into()?)?;
             let val_type = tcompact_get_ttype((type_header & 0x0F).try_into()?)?;
@@ -1760,7 +1762,7 @@ impl TInputProtocol for TCompactInputProtocol<&mut Bytes> {
             Ok(TMapIdentifier::new(
                 key_type,
                 val_type,
-                element_count as usize,
+                element_count,
             ))
         }
     }
